@@ -31,6 +31,10 @@ type pdCase struct {
 	ID    string   `json:"id"`
 	Graph pdGraph  `json:"graph"`
 	Paths []pdPath `json:"paths"`
+	// Custom: the predicate of this name is a custom domain property (written apiExt.<name> in the paths): its edges are
+	// rendered the way AMF encodes extensions -- a link listed under doc:customDomainProperties, the link's id used as
+	// the property that points to the extension node, the extension node carrying core:extensionName
+	Custom string `json:"custom,omitempty"`
 }
 
 type pdNodeObs struct {
@@ -54,10 +58,20 @@ type pdObs struct {
 
 func isLit(name string) bool { return strings.HasPrefix(name, "l") }
 
-func renderPdGraph(g pdGraph) string {
+func renderPdGraph(g pdGraph, custom string) string {
 	var graph []any
+	extTargets := map[string]bool{}
+	for _, e := range g.Edges {
+		if custom != "" && e[1] == custom {
+			extTargets[e[2]] = true
+		}
+	}
 	for _, n := range g.Nodes {
 		node := map[string]any{"@id": nodeNS + n}
+		if extTargets[n] {
+			node["http://a.ml/vocabularies/core#extensionName"] = custom
+		}
+		var links []any
 		var ts []any
 		for _, t := range g.Types[n] {
 			ts = append(ts, exNS+t)
@@ -68,6 +82,12 @@ func renderPdGraph(g pdGraph) string {
 			if e[0] != n {
 				continue
 			}
+			if custom != "" && e[1] == custom {
+				link := fmt.Sprintf("amf://id#link-%s-%d", n, len(links))
+				links = append(links, map[string]any{"@id": link})
+				node[link] = map[string]any{"@id": nodeNS + e[2]}
+				continue
+			}
 			if isLit(e[2]) {
 				props[e[1]] = append(props[e[1]], map[string]any{"@value": "lit-" + e[2]})
 			} else {
@@ -76,6 +96,9 @@ func renderPdGraph(g pdGraph) string {
 		}
 		for p, vs := range props {
 			node[exNS+p] = vs
+		}
+		if len(links) > 0 {
+			node[docNS+"customDomainProperties"] = links
 		}
 		graph = append(graph, node)
 	}
@@ -115,9 +138,9 @@ func strip(s string) string {
 	return strings.TrimPrefix(s, "lit-")
 }
 
-func runPdBatch(paths []pdPath, g pdGraph) ([]pdPathObs, error) {
+func runPdBatch(paths []pdPath, g pdGraph, custom string) ([]pdPathObs, error) {
 	prof := renderPdProfile(paths)
-	data := renderPdGraph(g)
+	data := renderPdGraph(g, custom)
 	rep, err := pkg.ValidateWithConfiguration(prof, data, false, nil, clockA, config.DefaultReportConfiguration())
 	if err != nil {
 		return nil, err
@@ -193,7 +216,7 @@ func runPathDen(c pdCase) (obs pdObs) {
 				err = fmt.Errorf("panic: %v", p)
 			}
 		}()
-		return runPdBatch(ps, c.Graph)
+		return runPdBatch(ps, c.Graph, c.Custom)
 	}
 	r, err := safe(c.Paths)
 	if err == nil {
